@@ -34,12 +34,24 @@ var c07Modes = []string{"scripts-only", "tx", "tx+scripts", "tx-nil-prevout", "n
 func c07Options(in *c07Input) []interpreter.ExecutionOptionFunc {
 	unlock := bscript.NewFromBytes(append([]byte{}, in.Unlock...))
 	lock := bscript.NewFromBytes(append([]byte{}, in.Lock...))
+	// transaction shape derived from the context: 1-3 inputs, 0-2 outputs, the
+	// checked input at any position (so that "index == number of outputs" occurs)
+	nOuts := int(in.Ctx.Sats % 3)
+	nIns := 1 + int(in.Ctx.Sats/3%3)
+	idx := int(in.Ctx.Sats / 9 % uint64(nIns))
 	mkTx := func() *bt.Tx {
 		tx := &bt.Tx{Version: in.Ctx.Version, LockTime: in.Ctx.LockTime}
-		inp := &bt.Input{PreviousTxOutIndex: 0, SequenceNumber: in.Ctx.Sequence, UnlockingScript: unlock}
-		_ = inp.PreviousTxIDAdd(append([]byte{}, fixedTxID...))
-		tx.Inputs = append(tx.Inputs, inp)
-		tx.Outputs = append(tx.Outputs, &bt.Output{Satoshis: 1, LockingScript: bscript.NewFromBytes([]byte{0x51})})
+		for i := 0; i < nIns; i++ {
+			inp := &bt.Input{PreviousTxOutIndex: uint32(i), SequenceNumber: in.Ctx.Sequence, UnlockingScript: bscript.NewFromBytes([]byte{0x51})}
+			if i == idx {
+				inp.UnlockingScript = unlock
+			}
+			_ = inp.PreviousTxIDAdd(append([]byte{}, fixedTxID...))
+			tx.Inputs = append(tx.Inputs, inp)
+		}
+		for i := 0; i < nOuts; i++ {
+			tx.Outputs = append(tx.Outputs, &bt.Output{Satoshis: uint64(i + 1), LockingScript: bscript.NewFromBytes([]byte{0x51})})
+		}
 		return tx
 	}
 	prev := &bt.Output{Satoshis: in.Ctx.Sats, LockingScript: lock}
@@ -48,29 +60,29 @@ func c07Options(in *c07Input) []interpreter.ExecutionOptionFunc {
 	case "scripts-only":
 		o = append(o, interpreter.WithScripts(lock, unlock))
 	case "tx":
-		o = append(o, interpreter.WithTx(mkTx(), 0, prev))
+		o = append(o, interpreter.WithTx(mkTx(), idx, prev))
 	case "tx+scripts":
-		o = append(o, interpreter.WithTx(mkTx(), 0, prev), interpreter.WithScripts(lock, unlock))
+		o = append(o, interpreter.WithTx(mkTx(), idx, prev), interpreter.WithScripts(lock, unlock))
 	case "tx-nil-prevout":
-		o = append(o, interpreter.WithTx(mkTx(), 0, nil), interpreter.WithScripts(lock, unlock))
+		o = append(o, interpreter.WithTx(mkTx(), idx, nil), interpreter.WithScripts(lock, unlock))
 	case "nil-tx-neg-idx":
 		o = append(o, interpreter.WithTx(nil, -1, prev), interpreter.WithScripts(lock, unlock))
 	case "nil-tx-idx0":
 		o = append(o, interpreter.WithTx(nil, 0, prev), interpreter.WithScripts(lock, unlock))
 	case "idx-out-of-range":
-		o = append(o, interpreter.WithTx(mkTx(), 1+int(in.Ctx.Sats%5), prev), interpreter.WithScripts(lock, unlock))
+		o = append(o, interpreter.WithTx(mkTx(), nIns+int(in.Ctx.Sats%5), prev), interpreter.WithScripts(lock, unlock))
 	case "idx-minus-one":
 		o = append(o, interpreter.WithTx(mkTx(), -1, prev), interpreter.WithScripts(lock, unlock))
 	case "tx-nil-unlocking":
 		tx := mkTx()
-		tx.Inputs[0].UnlockingScript = nil
-		o = append(o, interpreter.WithTx(tx, 0, prev), interpreter.WithScripts(lock, unlock))
+		tx.Inputs[idx].UnlockingScript = nil
+		o = append(o, interpreter.WithTx(tx, idx, prev), interpreter.WithScripts(lock, unlock))
 	case "tx-no-inputs":
 		tx := mkTx()
 		tx.Inputs = nil
 		o = append(o, interpreter.WithTx(tx, 0, prev), interpreter.WithScripts(lock, unlock))
 	case "prevout-nil-script":
-		o = append(o, interpreter.WithTx(mkTx(), 0, &bt.Output{Satoshis: in.Ctx.Sats}), interpreter.WithScripts(lock, unlock))
+		o = append(o, interpreter.WithTx(mkTx(), idx, &bt.Output{Satoshis: in.Ctx.Sats}), interpreter.WithScripts(lock, unlock))
 	case "nil-scripts":
 		o = append(o, interpreter.WithScripts(nil, nil))
 	}
@@ -143,7 +155,7 @@ func c07Flags(r *prng.R, i uint64) uint32 {
 func init() {
 	p := &mon.Property{
 		ID: "C07",
-		Rule: "Every Engine.Execute call runs under the recover monitor in a child process (a child death or a case that does not return is attributed through the progress marker and confirmed alone). Sources: random byte pairs (lengths 0..80 and the 10000/10001-byte boundary), every truncation and 8 mutations of each node vector, structured random programs, the enumerated opcode x edge-operand programs; flag words sampled from all 2^16 (always including each single bit, 0 and all ones); twelve transaction-context modes (scripts only, tx, tx without previous output, nil tx with negative index, index out of range, -1, nil unlocking script, tx without inputs, previous output without script, nil scripts); no debugger / recording debugger / debug.NewDebugger with attached functions. " +
+		Rule: "Every Engine.Execute call runs under the recover monitor in a child process (a child death or a case that does not return is attributed through the progress marker and confirmed alone). Sources: random byte pairs (lengths 0..80 and the 10000/10001-byte boundary), every truncation and 8 mutations of each node vector, structured random programs, the enumerated opcode x edge-operand programs; flag words sampled from all 2^16 (always including each single bit, 0 and all ones); short programs over a small alphabet around signature opcodes / code separators / OP_RETURN / conditionals; structurally malformed DER signatures; transactions of 1-3 inputs and 0-2 outputs with the checked input at any position; twelve transaction-context modes (scripts only, tx, tx without previous output, nil tx with negative index, index out of range, -1, nil unlocking script, tx without inputs, previous output without script, nil scripts); no debugger / recording debugger / debug.NewDebugger with attached functions. " +
 			"distinct_nontrivial = distinct (unlock, lock, flags, mode, debugger) whose scripts are longer than 2 bytes together or that ran at least one instruction or succeeded.",
 		Assum: []string{"termination is restated as bounded progress: a case counts as non-returning only when it exceeds 600 s when re-run alone",
 			"children run with a 24 GiB address-space limit; a Go fatal error (out of memory, stack overflow) kills only the child and is reported as a violation after confirmation"},
@@ -286,6 +298,55 @@ func init() {
 				l = append(l[:pos:pos], append([]byte{byte(0xac + r.Intn(4))}, l[pos:]...)...)
 			}
 			judge(c, &c07Input{Unlock: u, Lock: l, Flags: fl, Mode: modeOf(r), Dbg: dbgOf(r, len(u)+len(l)), Src: "structured", Ctx: randCtx(r)})
+		}
+		c.Phase("sigop-combos") // short programs over a small alphabet around signature opcodes, code separators, OP_RETURN and conditionals
+		{
+			pubk := gen.Push(append([]byte{0x02}, bytesOf(0x11, 32)...))
+			derLike := append([]byte{0x30, 0x06, 0x02, 0x01, 0x01, 0x02, 0x01, 0x01}, 0x41)
+			ua := [][]byte{{0x00}, {0x51}, gen.Push(derLike), gen.Push([]byte{0x43}), gen.Push([]byte{0xc3}), gen.Push([]byte{0x01}), pubk, {0xab}, {0x6a}, {0x63}, {0x67}, {0x68}, {0x61}, {0x76}}
+			la := [][]byte{pubk, {0xac}, {0xad}, {0xae}, {0xaf}, {0x51}, {0x52}, {0x00}, {0xab}, {0x91}, {0x6a}, {0x63}, {0x68}, {0x76}, {0x75}}
+			N3 := uint64(60000)
+			if c.Thorough {
+				N3 = 2000000
+			}
+			for i := uint64(0); i < N3; i++ {
+				if !c.Case(i) {
+					continue
+				}
+				r := c.Rand(i)
+				var u, l []byte
+				if i%2 == 0 {
+					for k := r.Intn(6); k > 0; k-- {
+						u = append(u, prng.Pick(r, ua)...)
+					}
+					for k := 1 + r.Intn(5); k > 0; k-- {
+						l = append(l, prng.Pick(r, la)...)
+					}
+				} else { // pushes, an executed separator somewhere, a top-level OP_RETURN at the end; a very short locking script
+					pushes := ua[:7]
+					for k := r.Intn(4); k > 0; k-- {
+						u = append(u, prng.Pick(r, pushes)...)
+					}
+					if r.Chance(2, 3) {
+						u = append(u, 0xab)
+					}
+					for k := r.Intn(3); k > 0; k-- {
+						u = append(u, prng.Pick(r, pushes)...)
+					}
+					if r.Chance(2, 3) {
+						u = append(u, 0x6a)
+					}
+					for k := 1 + r.Intn(3); k > 0; k-- {
+						l = append(l, prng.Pick(r, la[:10])...)
+					}
+				}
+				fl := prng.Pick(r, []uint32{0, uint32(scriptflag.UTXOAfterGenesis), uint32(scriptflag.UTXOAfterGenesis | scriptflag.EnableSighashForkID),
+					uint32(scriptflag.VerifyStrictEncoding), uint32(scriptflag.VerifyDERSignatures | scriptflag.UTXOAfterGenesis), uint32(scriptflag.VerifyNullFail | scriptflag.StrictMultiSig)})
+				if r.Chance(1, 8) {
+					fl = c07Flags(r, i)
+				}
+				judge(c, &c07Input{Unlock: u, Lock: l, Flags: fl, Mode: "tx", Dbg: dbgOf(r, 10), Ctx: randCtx(r), Src: "sigop-combos"})
+			}
 		}
 		c.Phase("der-variants") // structurally malformed signatures: every component missing, shortened or mis-sized, with the outer length kept consistent so that the deeper checks are reached
 		n = 0
